@@ -77,6 +77,10 @@ func (s *scripted) run(program []string) *clientRun {
 	var cstream *connect.ClientStreamForClient[svc.Msg, svc.Msg]
 	var sstream *connect.ServerStreamForClient[svc.Msg]
 	setHdr := func(h interface{ Set(string, string) }) { h.Set(wire.CallHeader, s.callID) }
+	if len(program) > 0 && program[0] == "X0" {
+		// the context is already done when the stream is created
+		s.cancel()
+	}
 	switch s.kind {
 	case svc.Bidi:
 		bidi = s.cs.C[svc.Bidi].CallBidiStream(s.ctx)
@@ -137,7 +141,7 @@ func (s *scripted) run(program []string) *clientRun {
 	}
 	for _, op := range program {
 		switch {
-		case op == "X":
+		case op == "X" || op == "X0":
 			s.cancel()
 			cr.CancelIdx = len(cr.Ops) - 1
 			cr.Ops = append(cr.Ops, opResult{Op: "X", Returned: true, At: time.Now(), After: time.Now()})
